@@ -2,7 +2,7 @@ package props
 
 import "qeepverif/internal/fw"
 
-// Workload families added in rounds 9-17 (DESIGN.md, section 7), appended to the rule texts that the evidence files report.
+// Workload families added in rounds 9-18 (DESIGN.md, section 7), appended to the rule texts that the evidence files report.
 func init() {
 	for id, more := range map[string]string{
 		"C01": "Rounds 9-15: interleaved construction and re-armed interior tensors; wide fan-in (one Concat over 33..130 interior tensors); selections between neighbouring doubles inside a graph; deep ladders run under a CPU-time bound (20 s for milliseconds of work) instead of a wall clock; operand provenances (13 of 16 leaf constructions go through Reshape / Slice / Concat / Patch / adopted gradients / reducers / MatMul with the identity / Scale(1) / Transpose / a back-propagated graph / a no-op BackPropagate); one long-lived Config object for two creations in three; abandoned consumers.",
@@ -52,6 +52,20 @@ func init() {
 		"C13": "Round 17: BCE with labels 1 - 2e-10..1 - 5e-8 on samples predicted with 1 - p = 1e-11..1e-7 (and the mirror image near 0), compared at 1e-9 of the two terms.",
 		"C17": "Round 17: the caller re-armed the gradient tensor and back-propagated a penalty graph over it before the step; its own gradient object and tracking state are unchanged afterwards.",
 		"C20": "Round 17: focused runs (every goroutine does jobs of one kind at once: shared loss object over varying batch shapes, shape operations on one shared result, transposes, private products, gradient reads); the first Gradient() reads of a shared, already back-propagated parameter with three shares.",
+	} {
+		fw.ExtendRule(id, more)
+	}
+	for id, more := range map[string]string{
+		"C01": "Round 18: Concat over 3..5 operands of differing extents (also summing to a multiple of the first) and Patch with full-length indexes mixing {0,0} and explicit ranges, sources smaller than the canvas; both weighted.",
+		"C02": "Round 18: Sin and Cos at arguments of magnitude 1e6..1e15.",
+		"C03": "Round 18: sequences of 3..8 unary operations on ONE tensor object (each function's sibling right after it); chains of 2..4 scalings, each step compared exactly with the rounded product of the previous result.",
+		"C07": "Round 18: one tensor object at both operand positions of Dot / Mul / Add / Sub / Div / MatMul.",
+		"C11": "Round 18: learning rates 1.5 and 4.",
+		"C15": "Round 18: Log of a Sigmoid output of 1e-13..1e-18; a one-element activation output as the receiver of a product with an untracked tensor of many elements.",
+		"C16": "Round 18: the layer output reaching the root along two additive paths (y + y, (y + c) + y); a second layer whose output is multiplied by an exact 0 (zero gradients, not nil).",
+		"C18": "Round 18: Full constants +Inf, -Inf, NaN and MaxFloat64.",
+		"C19": "Round 18: calls whose prediction or target is a caller-side struct embedding a tensor of the right rank and length (refused: counts unchanged; accepted: counted).",
+		"C20": "Round 18: the shared layer has a history (one training step: forward, back-propagation, parameters replaced and re-armed) before it is shared; focused runs of layer jobs.",
 	} {
 		fw.ExtendRule(id, more)
 	}
